@@ -66,7 +66,14 @@ pub fn wconf(u: &mut Unstructured, max_levels: u8) -> Result<WConf> {
         3..=5 => 2,
         6..=7 => 3,
         8 => u.int_in_range(4..=8u8)?,
-        _ => *u.choose(&[254u8, 255, 9, 100])?,
+        // hundreds of index levels cost hundreds of block loads per cursor: kept rare
+        _ => {
+            if u.int_in_range(0..=3u8)? == 0 {
+                *u.choose(&[254u8, 255, 100])?
+            } else {
+                u.int_in_range(4..=9u8)?
+            }
+        }
     }
     .min(max_levels);
     Ok(WConf { codec, level, block_size, interval, levels })
